@@ -16,6 +16,7 @@
 #include <bxdecay0/dbd_gA.h>
 #include <bxdecay0/decay0_generator.h>
 #include <bxdecay0/mdl_event_op.h>
+#include <locale>
 #include <memory>
 
 #include "common/vh.h"
@@ -223,6 +224,21 @@ static int run_baton(int nev)
   return 0;
 }
 
+// VERIF_APP_LOCALE=comma: the application has installed a global C++ locale of its own (decimal comma, grouping by dots) before
+// it uses the library - process-wide state the library has to leave alone
+struct comma_numpunct : std::numpunct<char>
+{
+  char do_decimal_point() const override { return ','; }
+  char do_thousands_sep() const override { return '.'; }
+  std::string do_grouping() const override { return "\3"; }
+};
+static bool g_app_locale = false;
+static bool app_locale_intact()
+{
+  if (!g_app_locale) return true;
+  return std::use_facet<std::numpunct<char>>(std::locale()).decimal_point() == ',';
+}
+
 // ------------------------------------------------------------------------------------------------ free-running threads
 static int run_free(int nthreads, int nev)
 {
@@ -275,6 +291,7 @@ static int run_free(int nthreads, int nev)
   }
   go = true;
   for (auto & x : th) x.join();
+  bool locale_after_threads = app_locale_intact();
   long differ = 0, compared = 0;
   for (int t = 0; t < nthreads; t++)
     for (size_t i = 0; i < n; i++) {
@@ -297,7 +314,8 @@ static int run_free(int nthreads, int nev)
                vh::json_escape(conc2[t][k].empty() ? std::string("-") : conc2[t][k].back().substr(0, 120)).c_str());
       }
     }
-  printf("{\"phase\":\"free\",\"threads\":%d,\"configs\":%zu,\"events_compared\":%ld,\"differ\":%ld}\n", nthreads, n + together.size(), compared, differ);
+  printf("{\"phase\":\"free\",\"threads\":%d,\"configs\":%zu,\"events_compared\":%ld,\"differ\":%ld,\"app_locale_intact\":%s}\n", nthreads,
+         n + together.size(), compared, differ, locale_after_threads ? "true" : "false");
   return 0;
 }
 
@@ -434,6 +452,12 @@ static int run_handover(int nthreads, int nev)
 
 int main(int argc, char ** argv)
 {
+  if (const char * al = std::getenv("VERIF_APP_LOCALE")) {
+    if (std::string(al) == "comma") {
+      std::locale::global(std::locale(std::locale::classic(), new comma_numpunct));
+      g_app_locale = true;
+    }
+  }
   std::string mode = "baton";
   int nev = 20, nthreads = 4;
   for (int i = 1; i < argc; i++) {
